@@ -79,6 +79,8 @@ def case_conservation(case):
         fm = f.reshape(nz, -1).mean(axis=1)
         cm = c.reshape(nz, -1).mean(axis=1)
         scale = max(abs(qm), np.abs(q).max() / q.size)
+        if prec == "single":  # storage rounding is relative to the FIELD maximum (cf. C12), not to its mean
+            scale = max(scale, float(np.abs(f).max()))
         ef = np.max(np.abs(fm - qm)) / scale
         worst_f = max(worst_f, ef)
         if not ef <= tol:
